@@ -320,6 +320,33 @@ fn logging(on: bool) {
     }
 }
 
+/// What the oracles need to see of a harness PHY.
+pub(crate) trait PhyView {
+    fn v_pending(&self) -> usize;
+    fn v_transmitting(&self) -> bool;
+    fn v_tx_calls(&self) -> usize;
+    fn v_rx_calls(&self) -> usize;
+    fn v_tx(&self) -> &[u8];
+}
+
+impl<const N: usize, const P: usize, const TXN: usize> PhyView for TPhy<N, P, TXN> {
+    fn v_pending(&self) -> usize {
+        self.pending()
+    }
+    fn v_transmitting(&self) -> bool {
+        self.transmitting
+    }
+    fn v_tx_calls(&self) -> usize {
+        self.tx_calls
+    }
+    fn v_rx_calls(&self) -> usize {
+        self.rx_calls
+    }
+    fn v_tx(&self) -> &[u8] {
+        &self.tx[..self.tx_len]
+    }
+}
+
 #[derive(Clone, Copy)]
 pub(crate) struct Pre {
     pub lba: Option<Inst>,
@@ -336,7 +363,7 @@ pub(crate) struct Pre {
     pub gap_wait: u8,
 }
 
-pub(crate) fn snapshot(s: &FdlActiveStation, phy: &Phy) -> Pre {
+pub(crate) fn snapshot(s: &FdlActiveStation, phy: &impl PhyView) -> Pre {
     Pre {
         lba: s.last_bus_activity,
         pending_bytes: s.pending_bytes,
@@ -345,8 +372,8 @@ pub(crate) fn snapshot(s: &FdlActiveStation, phy: &Phy) -> Pre {
         last_token_time: s.last_token_time,
         end_hold: s.end_token_hold_time,
         next_app: s.next_application,
-        phy_pending: phy.pending(),
-        phy_transmitting: phy.transmitting,
+        phy_pending: phy.v_pending(),
+        phy_transmitting: phy.v_transmitting(),
         ts: s.p.address,
         hsa: s.p.highest_station_address,
         gap_wait: s.p.gap_wait_rotations,
@@ -391,13 +418,14 @@ pub(crate) enum Sent {
     Other,
 }
 
-pub(crate) fn sent(phy: &Phy) -> Sent {
-    if phy.tx_calls == 0 {
+pub(crate) fn sent(phy: &impl PhyView) -> Sent {
+    if phy.v_tx_calls() == 0 {
         return Sent::Nothing;
     }
-    match crate::fdl::Telegram::deserialize(&phy.tx[..phy.tx_len]) {
-        Some(Ok((crate::fdl::Telegram::Token(t), n))) if n == phy.tx_len => Sent::Token { da: t.da, sa: t.sa },
-        Some(Ok((crate::fdl::Telegram::Data(d), n))) if n == phy.tx_len => Sent::Data(d.h.clone(), d.pdu.len()),
+    let tx = phy.v_tx();
+    match crate::fdl::Telegram::deserialize(tx) {
+        Some(Ok((crate::fdl::Telegram::Token(t), n))) if n == tx.len() => Sent::Token { da: t.da, sa: t.sa },
+        Some(Ok((crate::fdl::Telegram::Data(d), n))) if n == tx.len() => Sent::Data(d.h.clone(), d.pdu.len()),
         _ => Sent::Other,
     }
 }
@@ -423,12 +451,13 @@ pub(crate) fn is_status_response(s: &Sent, da: u8, sa: u8, state: crate::fdl::Re
 }
 
 /// Obligations every poll has to meet whatever the state (C01 timing/bookkeeping, invariant).
-pub(crate) fn universal(pre: &Pre, st: &FdlActiveStation, phy: &Phy, now: Inst, napps: usize) {
-    assert!(phy.tx_calls <= 1, "C01/one-tx: at most one transmission is started per poll");
+pub(crate) fn universal(pre: &Pre, st: &FdlActiveStation, phy: &impl PhyView, now: Inst, napps: usize) {
+    let (tx_calls, rx_calls, tx_len) = (phy.v_tx_calls(), phy.v_rx_calls(), phy.v_tx().len());
+    assert!(tx_calls <= 1, "C01/one-tx: at most one transmission is started per poll");
     if pre.busy(now) {
-        assert!(phy.tx_calls == 0 && phy.rx_calls == 0, "C01/busy: while a transmission is in progress the station neither transmits nor receives");
+        assert!(tx_calls == 0 && rx_calls == 0, "C01/busy: while a transmission is in progress the station neither transmits nor receives");
     }
-    if phy.tx_calls == 1 {
+    if tx_calls == 1 {
         let l = pre.lba;
         assert!(l.is_some(), "C01/sync-pause: nothing is sent before any bus activity reference exists");
         let idle_us = now.total_micros() - l.unwrap().total_micros();
@@ -436,7 +465,7 @@ pub(crate) fn universal(pre: &Pre, st: &FdlActiveStation, phy: &Phy, now: Inst, 
         // exact arithmetic, up to the 1 us clock resolution: idle * rate >= 33 bit - 1 us
         assert!((idle_us as u64) * RATE + RATE >= 33_000_000, "C01/sync-pause: every telegram starts at least 33 bit times after the end of the previous bus activity");
         assert!(!pre.new_bytes(), "C01/idle-after-rx: nothing is sent in a poll in which newly received bytes became visible");
-        let want = now.total_micros() + (11 * phy.tx_len as u64 * 1_000_000 / RATE) as i64;
+        let want = now.total_micros() + (11 * tx_len as u64 * 1_000_000 / RATE) as i64;
         assert!(st.last_bus_activity.map(|t| t.total_micros()) == Some(want), "C01/tx-accounted: the own transmission is accounted as bus activity until its last bit");
     } else if !pre.busy(now) && pre.new_bytes() && st.connectivity_state == ConnectivityState::Online {
         assert!(st.last_bus_activity.map(|t| t >= now).unwrap_or(false), "C01/rx-accounted: newly visible received bytes count as bus activity now");
@@ -1141,7 +1170,7 @@ fn check_use_token(
             if apps[i].behaviour == 1 {
                 assert!(is_status_request(s, apps[i].target, ts), "C15/tx: the application's telegram is what goes on the wire");
                 assert!(st.state == State::AwaitDataResponse { address: apps[i].target, data: data_after }, "C15/await: a request that expects a reply is followed by waiting for exactly that station's reply");
-                kani::cover!(i != pre_next, "cover: a later application sends after an earlier one declined");
+                
             } else {
                 assert!(matches!(s, Sent::Data(h, 2) if h.da == 127), "C15/tx: the application's telegram is what goes on the wire");
                 assert!(st.state == State::UseToken { data: data_after, first_cycle_done: true }, "C15/await: a request without reply keeps the token in use");
@@ -1155,26 +1184,26 @@ fn check_use_token(
             } else {
                 assert!(st.next_application == pre_next, "C15/round-robin: the turn does not move when nobody was asked");
             }
-            kani::cover!(offer && napps == 3 && asked == 3, "cover: three applications decline in turn");
+            kani::cover!(offer && napps >= 1 && asked as usize == napps, "cover: all applications decline in turn");
             kani::cover!(!offer, "cover: hold time over and guaranteed cycle used: token passed without asking");
         }
     }
 }
 
-fn step_use_token(log_on: bool) {
+fn step_use_token(log_on: bool, napps: usize) {
+    // `napps` is concrete per harness: with a symbolic count CBMC unrolls the application loop
+    // (each iteration containing a full telegram encoder) up to the unwind bound.
     logging(log_on);
     reset_ring_log();
     unsafe {
         CB_SEQ = 0;
     }
-    let napps: usize = kani::any();
-    kani::assume(napps <= 3);
     let p = any_params();
     let data = any_use_token_data(napps);
     let fcd: bool = kani::any();
     let mut st = any_station(p, State::UseToken { data, first_cycle_done: fcd }, napps);
     kani::assume(inv_fdl(&st, napps));
-    let mut phy = Phy::any();
+    let mut phy = TPhy::<0, 1, 16>::any(); // UseToken never reads telegrams: only the pending byte count matters
     let now = any_instant();
     let pre = snapshot(&st, &phy);
     let ts = pre.ts;
@@ -1213,35 +1242,23 @@ fn step_use_token(log_on: bool) {
         return;
     }
     check_use_token(&st, &s, &apps, napps, pre.next_app, data, fcd, want_end, now, ts, 0);
-    kani::cover!(first_poll && now >= want_end && !fcd && napps > 0, "cover: hold time already over on arrival: one guaranteed high-priority cycle");
-    kani::cover!(napps == 0, "cover: station without applications");
+    kani::cover!(first_poll && now >= want_end && !fcd, "cover: hold time already over on arrival");
+    kani::cover!(true, "cover: token used");
 }
 
-l2_harness! {
-    #[kani::unwind(10)]
-    fn l2_use_token() { step_use_token(false) }
-}
-
-l2_harness! {
-    #[kani::unwind(10)]
-    fn l2_use_token_log() { step_use_token(true) }
-}
-
-fn step_await_data_response(log_on: bool) {
+fn step_await_data_response(log_on: bool, napps: usize) {
     logging(log_on);
     reset_ring_log();
     unsafe {
         CB_SEQ = 0;
     }
-    let napps: usize = kani::any();
-    kani::assume(napps >= 1 && napps <= 3);
     let p = any_params();
     let data = any_use_token_data(napps);
     let address: u8 = kani::any();
     kani::assume(address <= 127);
     let mut st = any_station(p, State::AwaitDataResponse { address, data }, napps);
     kani::assume(inv_fdl(&st, napps));
-    let mut phy = Phy::any();
+    let mut phy = TPhy::<1, 3, 16>::any(); // only the first buffered telegram is read
     let now = any_instant();
     let pre = snapshot(&st, &phy);
     let ts = pre.ts;
@@ -1307,12 +1324,40 @@ fn step_await_data_response(log_on: bool) {
     kani::cover!(apps[who].tx_calls == 1, "cover: retry offered to the same application right after its time-out");
 }
 
-l2_harness! {
-    #[kani::unwind(10)]
-    fn l2_await_data_response() { step_await_data_response(false) }
-}
 
 l2_harness! {
     #[kani::unwind(10)]
-    fn l2_await_data_response_log() { step_await_data_response(true) }
+    fn l2_use_token_0apps() { step_use_token(false, 0) }
+}
+l2_harness! {
+    #[kani::unwind(10)]
+    fn l2_use_token_1app() { step_use_token(false, 1) }
+}
+l2_harness! {
+    #[kani::unwind(10)]
+    fn l2_use_token_2apps() { step_use_token(false, 2) }
+}
+l2_harness! {
+    #[kani::unwind(10)]
+    fn l2_use_token_2apps_log() { step_use_token(true, 2) }
+}
+l2_harness! {
+    #[kani::unwind(10)]
+    fn l2_use_token_3apps_t() { step_use_token(false, 3) }
+}
+l2_harness! {
+    #[kani::unwind(10)]
+    fn l2_await_data_response_1app() { step_await_data_response(false, 1) }
+}
+l2_harness! {
+    #[kani::unwind(10)]
+    fn l2_await_data_response_2apps() { step_await_data_response(false, 2) }
+}
+l2_harness! {
+    #[kani::unwind(10)]
+    fn l2_await_data_response_2apps_log() { step_await_data_response(true, 2) }
+}
+l2_harness! {
+    #[kani::unwind(10)]
+    fn l2_await_data_response_3apps_t() { step_await_data_response(false, 3) }
 }
